@@ -50,6 +50,8 @@ type params struct {
 	ZeroRate  bool          // the pacer's Rate() is 0 (as the unlimited-rate pacer's is) and the client has a timeout
 	EOFFirst  bool          // targets carry a body; the transport fails the FIRST round trip of every hit with io.EOF (a kept-alive connection the server had closed)
 	UP        bool          // scheduling points right after every unlock (code that follows a critical section can be overtaken)
+	Direct    int           // >0: realPacers[Direct-1] is handed to Attack as it is (the attack sees the library type, the harness only watches the hits)
+	Lat       time.Duration // virtual time every exchange takes
 	JSONTgt   bool          // Cause tgterr: the targets come from the real (instrumented) lazy JSON targeter over ErrAt lines; it runs dry at call ErrAt and stays dry
 }
 
@@ -102,6 +104,9 @@ func (p params) name() string {
 	}
 	if p.UP {
 		s += ",points-after-unlocks"
+	}
+	if p.Direct > 0 {
+		s += fmt.Sprintf(",library-pacer=%s,latency=%v", realPacerNames[p.Direct-1], p.Lat)
 	}
 	if p.RealPacer > 0 {
 		s += ",pacer=" + realPacerNames[p.RealPacer-1]
@@ -260,6 +265,9 @@ func (f fakeRT) RoundTrip(r *http.Request) (*http.Response, error) {
 		rec.Entry = vsched.TimeNow().Sub(vsched.Base())
 	}
 	vsched.EnvYield("response")
+	if f.w.p.Lat > 0 {
+		vsched.TimeSleep(f.w.p.Lat)
+	}
 	if f.w.p.ClockHit {
 		rec.Exit = vsched.TimeNow().Sub(vsched.Base())
 	}
@@ -349,7 +357,11 @@ func (w *world) main() {
 	w.preSpawn = vsched.SpawnCount()
 	w.name = "atk"
 	w.began = vsched.ClockPeek()
-	res := atk.Attack(w.targeter, pacer{w}, p.Du, w.name)
+	var pc vegeta.Pacer = pacer{w}
+	if p.Direct > 0 {
+		pc = realPacers[p.Direct-1]
+	}
+	res := atk.Attack(w.targeter, pc, p.Du, w.name)
 	w.resultsID = vsched.ChanID(res)
 	w.attackerID = fmt.Sprintf("0.%d", vsched.SpawnCount())
 	if p.Mode == vsched.ClockTicking {
@@ -549,6 +561,27 @@ func (w *world) end(s *vsched.Sched, r *vsched.Result) (string, string) {
 		}
 	}
 	outcome := fmt.Sprintf("started=%d delivered=%v stops=%d/%d pace=%d", w.started, seqs, trues, len(w.stops), len(w.pace))
+	if p.Direct > 0 {
+		// the pacer is the library's own: nothing is recorded at its Pace calls; what can be seen is how many hits are
+		// released. With one worker and exchanges that take Lat each, hit k is released no earlier than k*Lat after the
+		// start, and the pacer is asked for hit k only after hit k-1 was released: asked within the duration means
+		// (k-1)*Lat <= Du. So at most Du/Lat + 2 hits are ever released (only lower bounds on time are used; the
+		// virtual clock adds sleeps up, which only makes releases later).
+		n := len(w.rts)
+		if p.Du > 0 && p.Lat > 0 && p.M == 1 {
+			if max := int(p.Du/p.Lat) + 2; n > max {
+				if v := fmt.Sprintf("C04: %d hits were released by an attack of %v whose single worker needs %v per hit: the pacer can have been asked for at most %d of them within the duration (pacer %s)", n, p.Du, p.Lat, max, realPacerNames[p.Direct-1]); w.own(v) {
+					return v, outcome
+				}
+			}
+		}
+		if w.closes != 1 {
+			if v := fmt.Sprintf("C02: results channel closed %d times", w.closes); w.own(v) {
+				return v, outcome
+			}
+		}
+		return "", fmt.Sprintf("%s released=%d", outcome, n)
+	}
 	if w.misuse != "" {
 		if v := "C02: " + w.misuse; w.own(v) {
 			return v, outcome
@@ -1099,6 +1132,11 @@ func c03Plans() []plan {
 			}
 		}
 	}
+	// max-workers at the top of its range (the default when the option is not given is the largest uint64)
+	add(params{W0: 1, M: math.MaxUint64, N: 3, Cause: "pacer", Slow: true}, ev.Pick(2, 3))
+	add(params{W0: 1, M: math.MaxUint64, N: 2, Cause: "pacer"}, -1)
+	add(params{W0: 0, M: 1 << 63, N: 2, Cause: "pacer", Slow: true}, -1)
+	add(params{W0: 2, M: 1<<63 - 1, N: 3, Cause: "pacer", Slow: true}, ev.Pick(2, 3))
 	return ps
 }
 
@@ -1141,6 +1179,15 @@ func c04Plans() []plan {
 	} {
 		ps = append(ps, plan{p, vsched.Config{Bound: ev.Pick(2-i, 3), Cache: true, Deadline: dl, Iterate: true}})
 	}
+	// the library's own constant pacer, handed over as it is, with workers that cannot keep up: the attack falls behind
+	// its schedule, and ends by the clock all the same
+	for _, x := range []struct {
+		direct  int
+		du, lat time.Duration
+		m       uint64
+	}{{1, 40 * time.Second, 30 * time.Second, 1}, {1, 17 * time.Second, 10 * time.Second, 1}, {2, 21 * time.Second, 9 * time.Second, 1}, {5, 10 * time.Millisecond, 4 * time.Millisecond, 1}} {
+		add(params{W0: 1, M: x.m, N: 0, Cause: "pacer", Direct: x.direct, Du: x.du, Lat: x.lat}, ev.Pick(2, 3))
+	}
 	return ps
 }
 
@@ -1169,6 +1216,9 @@ func c05Plans() []plan {
 	// hits with a body whose first round trip dies with EOF
 	add(params{W0: 2, M: 2, N: 2, Cause: "pacer", EOFFirst: true}, ev.Pick(2, -1))
 	add(params{W0: 1, M: 2, N: 3, Cause: "pacer", EOFFirst: true}, ev.Pick(1, 2))
+	// waits that come from the library's linear and sine pacers (a schedule that is not a multiple of one interval)
+	add(params{W0: 1, M: 2, N: 3, Cause: "pacer", RealPacer: 3}, ev.Pick(1, 2))
+	add(params{W0: 2, M: 2, N: 3, Cause: "pacer", RealPacer: 4}, ev.Pick(1, 2))
 	// workers overtaken right after they leave the critical section that stamps sequence number and timestamp
 	add(params{W0: 2, M: 2, N: 2, Cause: "pacer", UP: true}, ev.Pick(2, 3))
 	add(params{W0: 1, M: 2, N: 3, Cause: "pacer", UP: true, ClockHit: true, Mode: vsched.ClockTicking}, ev.Pick(1, 2))
